@@ -805,6 +805,10 @@ class Interp:
         idx = simplify_str(idx)
         if hasattr(v, "a_index"):
             return v.a_index(self, idx, node)
+        if isinstance(v, AObj) and v.cls is not None and self.repo.find_method(v.cls, "__getitem__") is not None:
+            return self.call_method(v, "__getitem__", [idx], {}, node)
+        if isinstance(idx, slice) and isinstance(v, (list, tuple, str, bytes)):
+            return v[idx]
         if isinstance(v, AIter):
             raise RaiseEx("TypeError", node)  # iterators are not subscriptable
         if isinstance(v, RepList) and isinstance(idx, int):
@@ -861,6 +865,11 @@ class Interp:
     def slice(self, v, lo, hi, st, node=None):
         if isinstance(v, AIter):
             raise RaiseEx("TypeError", node)
+        if isinstance(v, AObj) and v.cls is not None and self.repo.find_method(v.cls, "__getitem__") is not None \
+                and all(x is None or isinstance(x, int) for x in (lo, hi, st)):
+            return self.call_method(v, "__getitem__", [slice(lo, hi, st)], {}, node)
+        if isinstance(v, (bytes, bytearray)) and all(x is None or isinstance(x, int) for x in (lo, hi, st)):
+            return v[lo:hi:st]
         if isinstance(v, RepList):
             if lo is None and st is None and isinstance(hi, int) and hi < 0 and -hi <= len(v.tail):
                 return RepList(v.head, v.period, v.count, v.tail[:hi])
@@ -1160,6 +1169,12 @@ class Interp:
                 k = simplify_str(args[0])
                 if not _has_abs(k):
                     return recv.get(k, args[1] if len(args) > 1 else None)
+        if isinstance(recv, (bytes, bytearray)) and not _has_abs(args) and name in (
+                "join", "decode", "hex", "startswith", "endswith", "find", "index", "count", "replace", "split", "strip"):
+            try:
+                return getattr(recv, name)(*args)
+            except (ValueError, TypeError) as e:
+                raise RaiseEx(type(e).__name__, node)
         if isinstance(recv, str) and not _has_abs(args):
             try:
                 return getattr(recv, name)(*args)
@@ -1272,6 +1287,9 @@ class Interp:
 
     def call_builtin(self, name, args, kwargs, node=None):
         args = [_unlin(a) for a in args]
+        if name in ("enumerate", "zip", "list", "tuple", "sorted", "reversed", "any", "all", "sum", "min", "max") \
+                and any(isinstance(a, AObj) and a.cls is not None and (self.repo.find_method(a.cls, "__getitem__") or self.repo.find_method(a.cls, "__iter__")) for a in args):
+            args = [self.iterate(a, node) if (isinstance(a, AObj) and a.cls is not None and (self.repo.find_method(a.cls, "__getitem__") or self.repo.find_method(a.cls, "__iter__"))) else a for a in args]
         if name == "object.__init__":
             return None
         if name in ("ext:copy.deepcopy", "ext:copy.copy", "deepcopy") and args:
@@ -1296,7 +1314,7 @@ class Interp:
                 return v.a_len(self)
             if isinstance(v, AObj) and v.cls is not None and self.repo.find_method(v.cls, "__len__") is not None:
                 return self.call_method(v, "__len__", [], {}, node)
-            if isinstance(v, (list, tuple, dict, str)):
+            if isinstance(v, (list, tuple, dict, str, bytes, bytearray, set, frozenset)):
                 return len(v)
             if isinstance(v, Ch):
                 return 1
@@ -1593,6 +1611,9 @@ class Interp:
                 self.stores.append(("subscript", base, idx, v, target))
         elif isinstance(target, ast.Attribute):
             base = self.eval(target.value, frame)
+            hook = getattr(self, "setattr_hook", None)
+            if hook is not None:
+                v = hook(base, target.attr, v, target)
             if isinstance(base, AObj):
                 base.attrs[target.attr] = v
                 self.stores.append(("attr", base, target.attr, v, target))
